@@ -117,3 +117,32 @@ package vecengine
 //@   loop 1 invariant 0 <= _k && _k <= len(_range) && isHB(before)
 //@   loop 1 invariant forall(j, 0, _k, hbFork(hv(before), _range[j]))
 //@   loop 1 invariant forall(br int, br >= 0 && forall(j, 0, _k, _range[j] != br) ==> hbSeq(hv(before), br) == old(hbSeq(hv(before), br)) && hbMin(hv(before), br) == old(hbMin(hv(before), br)))
+//@
+//@ // the owner's callbacks: GetHighestBefore returns the stored vector (nil if the event is not indexed);
+//@ // NewHighestBefore returns a new all-zero vector of the given number of entries
+//@ funcfield Callbacks.GetHighestBefore
+//@   params id
+//@   ensures  result == gHBI[id] && (result != nil ==> isHB(result) && !arrfresh(hv(result), _alloc))
+//@ funcfield Callbacks.NewHighestBefore
+//@   params size
+//@   ensures  isHB(result) && len(hv(result)) == 8 * size && forall(j, 0, len(hv(result)), hv(result)[j] == 0) && fresh(unbox(result, "*vecfc.HighestBeforeSeq")) && arrfresh(hv(result), old(_alloc))
+//@
+//@ // GetMergedHighestBefore: without forks the stored vector itself (branch = validator); otherwise a new vector with one
+//@ // entry per validator: fork if one of the validator's branches is marked as fork in the stored vector, else the highest
+//@ // sequence over the validator's branches (0 if none)
+//@ func (*Engine).GetMergedHighestBefore
+//@   requires vi != nil && valid(vi.validators) && len(vi.validators.values) <= 536870910 && vi.callback.GetHighestBefore != nil && vi.callback.NewHighestBefore != nil && gHBI[id] != nil
+//@   requires vi.bi != nil ==> biwf(vi.bi, len(vi.validators.values))
+//@   modifies vi.bi
+//@   ensures  [nofork] len(vi.bi.BranchIDCreatorIdxs) <= len(vi.validators.values) ==> result == gHBI[id]
+//@   ensures  [merged] len(vi.bi.BranchIDCreatorIdxs) > len(vi.validators.values) ==> isHB(result) && result != gHBI[id] &&
+//@            forall(c, 0, len(vi.validators.values), (gfork(hv(gHBI[id]), vi.bi.BranchIDByCreators[c], len(vi.bi.BranchIDByCreators[c])) ==> hbFork(hv(result), c)) &&
+//@              (!gfork(hv(gHBI[id]), vi.bi.BranchIDByCreators[c], len(vi.bi.BranchIDByCreators[c])) ==> hbSeq(hv(result), c) == gmax(hv(gHBI[id]), vi.bi.BranchIDByCreators[c], len(vi.bi.BranchIDByCreators[c]))))
+//@   loop 1 modifies deref(unbox(mergedBefore, "*vecfc.HighestBeforeSeq")), deref(unbox(mergedBefore, "*vecfc.HighestBeforeSeq"))[*]
+//@   loop 1 invariant arrof(hv(mergedBefore)) == arrof(atentry(hv(mergedBefore))) || arrfresh(hv(mergedBefore), _loopalloc)
+//@   loop 1 invariant arrfresh(hv(mergedBefore), old(_alloc)) && isHB(mergedBefore) && isHB(scatteredBefore) && 0 <= _k && _k <= len(_range)
+//@   loop 1 invariant [p] unbox(mergedBefore, "*vecfc.HighestBeforeSeq") != unbox(scatteredBefore, "*vecfc.HighestBeforeSeq")
+//@   loop 1 invariant [a] arrof(hv(mergedBefore)) != arrof(hv(scatteredBefore))
+//@   loop 1 invariant [f] !arrfresh(hv(scatteredBefore), _loopalloc)
+//@   loop 1 invariant forall(j int, j >= 0 ==> hbSeq(hv(scatteredBefore), j) == atentry(hbSeq(hv(scatteredBefore), j)) && hbMin(hv(scatteredBefore), j) == atentry(hbMin(hv(scatteredBefore), j)))
+//@   loop 1 invariant forall(c, 0, _k, (gfork(hv(scatteredBefore), _range[c], len(_range[c])) ==> hbFork(hv(mergedBefore), c)) && (!gfork(hv(scatteredBefore), _range[c], len(_range[c])) ==> hbSeq(hv(mergedBefore), c) == gmax(hv(scatteredBefore), _range[c], len(_range[c]))))
